@@ -509,6 +509,50 @@ func r075(c *Ctx, r *R) {
 			}
 			return g.Branch && isLoadOK(g.Cond)
 		}
+		// the peer trusts itself (the pubsub validator also sees the
+		// peer's own publications: without this a peer with an explicit
+		// trust list that does not name itself rejects everything it sends)
+		isSelf := func(g Guard) bool {
+			b, ok := g.Cond.(*ssa.BinOp)
+			if !ok || !(b.Op == token.EQL && g.Branch || b.Op == token.NEQ && !g.Branch) {
+				return false
+			}
+			var other ssa.Value
+			if paramIndex(f, b.X) == pidIdx {
+				other = b.Y
+			} else if paramIndex(f, b.Y) == pidIdx {
+				other = b.X
+			}
+			if other == nil {
+				return false
+			}
+			call, _ := originCall(other)
+			return call != nil && nameMatches(callName(call.Common()), "host.Host).ID")
+		}
+		selfTrusted := false
+		for _, lf := range returnLeaves(f, 0) {
+			if k, isK := constOf(lf.Val); isK && k != nil && constant.BoolVal(k) && (lf.GuardedBy(isSelf) || mustPass(lf.Block, func(g Guard) bool { return isSelf(g) || gField(g, "TrustAll", true) })) {
+				if lf.GuardedBy(isSelf) {
+					selfTrusted = true
+				}
+			}
+		}
+		if !selfTrusted {
+			// `TrustAll || pid == self` joined into one return
+			for _, b := range f.Blocks {
+				if iff, ok := b.Instrs[len(b.Instrs)-1].(*ssa.If); ok {
+					if isSelf(Guard{Cond: iff.Cond, Branch: true, If: iff}) {
+						// the true edge must lead to a `return true`
+						for _, lf := range returnLeaves(f, 0) {
+							if k, isK := constOf(lf.Val); isK && k != nil && constant.BoolVal(k) && (lf.Block == b.Succs[0] || blockReachesAvoiding(b.Succs[0], lf.Block, b.Succs[1]) || lf.Into != nil && lf.Block == b) {
+								selfTrusted = true
+							}
+						}
+					}
+				}
+			}
+		}
+		r.Check(selfTrusted, "crdt.IsTrustedPeer:self", f.Pos(), "a peer always trusts itself", "crdt IsTrustedPeer no longer answers true for the peer's own id: the pubsub validator also runs on the peer's own publications, so a peer whose trust list does not name itself never gets an update out")
 		nTrue, nLoad := 0, 0
 		for _, lf := range returnLeaves(f, 0) {
 			if k, isK := constOf(lf.Val); isK {
